@@ -65,6 +65,14 @@ pub fn run<A: Cx>(d: &mut Drv<A>, scale: usize, all_offsets: bool, masking: bool
                     d.emit(json!({"op": "copying", "dst": 5, "src": whole(2), "t": t2, "via": "seq"}));
                     d.emit(json!({"op": "inplace", "dst": 2, "t": t2}));
                 }
+                // copying forms whose receiver is a static literal / the slice a k-mer dereferences to
+                if o == offs[0] {
+                    let (fs, _) = d.foreign_src();
+                    for &tf in &ts {
+                        d.emit(json!({"op": "copying", "dst": 6, "src": fs.clone(), "t": tf, "via": "slice"}));
+                    }
+                    d.obs(fs);
+                }
                 // receivers untouched
                 d.obs(whole(1));
                 d.obs(src.clone());
